@@ -13,7 +13,7 @@ From SV Require Import Base.Base IR.State IR.NS IR.Ops Hier.Paths Hier.Trace
   Proofs.NsInv Proofs.QueryEnumBase Proofs.QueryEnumInst Proofs.QueryEnumPorts Proofs.QueryEnumNetl
   Proofs.QueryEnumPins Proofs.QueryEnumDefs Proofs.QueryEnumLibs Proofs.QueryEnumCables Proofs.QueryEnumFull Proofs.QueryEnumEx
   Proofs.QueryEnumTerm Proofs.QueryEnumTerm2 Proofs.QueryEnumWires Proofs.QueryEnumWiresSpec Proofs.QueryEnumWiresAll
-  Proofs.QueryEnumCablesAll Proofs.QueryEnumAllFull.
+  Proofs.QueryEnumCablesAll Proofs.QueryEnumAllFull Proofs.QueryEnumWiresAllRoots Proofs.QueryEnumCablesAllRoots.
 Import ListNotations.
 Local Open Scope string_scope.
 Local Open Scope list_scope.
@@ -568,6 +568,25 @@ Theorem C13_get_cables_all : forall s, QWF s -> forall o fuel root rec pats res,
 Proof. exact query_cables_all_spec. Qed.
 Print Assumptions C13_get_cables_all.
 
+(* ANY COLLECTION of roots, exact: for get_cables the result is the union over the roots (a mark set
+   during an earlier root's walk only suppresses work already done) *)
+Theorem C13_get_cables_all_roots_candidates : forall s, QWF s -> forall rec fuel roots ps os,
+  cands_cables s fuel roots rec SAll = WOk (ps, os) ->
+  (forall d, In d ps <-> exists it, In it roots /\ lead_defs s it d) /\ NoDup os /\
+  forall c, In c os <-> exists it, In it roots /\ cables_all s it c.
+Proof. exact cands_cables_all_roots_exact. Qed.
+Print Assumptions C13_get_cables_all_roots_candidates.
+
+Theorem C13_get_cables_all_roots : forall s, QWF s -> forall o fuel roots rec pats res,
+  LookOK s (q_reg o) (q_key o) RCables -> ~ In [] pats ->
+  query_cables s o fuel roots rec SAll pats = WOk res ->
+  NoDup res /\
+  forall e, In e res <->
+    (exists it, In it roots /\ ((exists d, lead_defs s it d /\ par s RCables e = Some d) \/ cables_all s it e)) /\
+    (sel_match (q_case o) (q_re o) (key_of s (q_key o)) pats e = true /\ q_cb o e = true).
+Proof. exact query_cables_all_roots_spec. Qed.
+Print Assumptions C13_get_cables_all_roots.
+
 (* the wires searched = the final mark set of the loop = the closure *)
 Theorem C13_get_cables_all_searched_wires : forall s, QWF s -> forall rec fuel root st',
   wl (acts_cables s rec SAll) (bad_cables s SAll) fuel [root] (mkW [] []) = WOk st' ->
@@ -667,6 +686,21 @@ Theorem C13_get_wires_all_sound : forall s cb fuel roots rec l res,
   forall w, In w res -> cb w = true /\ (In w (yielded l) \/ closure_of s (searched l) w).
 Proof. exact query_wires_all_sound. Qed.
 Print Assumptions C13_get_wires_all_sound.
+
+(* selection ALL for ANY COLLECTION of roots, exact: the first loop names the union of what each root
+   names (all_roots_out); the second loop is the closure from the collected pins on paths outside the
+   wires the first loop yielded for ANY of the roots - so the result for a collection can be smaller than
+   the union of the single-root results' searches, and is stated over the collection as a whole *)
+Theorem C13_get_wires_all_roots : forall s, QWF s -> forall rec cb fuel roots res,
+  query_wires s cb fuel roots rec SAll = WOk res ->
+  NoDup res /\ forall w, In w res <-> reach_wires_all_roots s roots w /\ cb w = true.
+Proof. exact query_wires_all_roots_spec. Qed.
+Print Assumptions C13_get_wires_all_roots.
+
+Theorem C13_reach_wires_all_roots_one : forall s root w,
+  reach_wires_all_roots s [root] w <-> reach_wires_all s root w.
+Proof. exact reach_wires_all_roots_one. Qed.
+Print Assumptions C13_reach_wires_all_roots_one.
 
 (* under ALL the setting of recursive does not change the result (as a set) *)
 Theorem C13_get_wires_all_recursive_irrelevant : forall s, QWF s -> forall cb f1 f2 rec1 rec2 root r1 r2,
